@@ -4,6 +4,7 @@ import Gemato.Model.OpenPGP
 import Gemato.Model.Hash
 import Gemato.Model.VerifyDir
 import Gemato.Model.FindTop
+import Gemato.Model.Profile
 /-
   Line-protocol driver: one JSON request per input line, one JSON reply per
   output line. Strings travel as arrays of code points.
@@ -296,6 +297,45 @@ def opFindTop (req : Json) : Except String Json := do
         | none => Json.null
         | some (i, nm) => Json.arr #[jNat i, jStr nm])])
 
+def getProfile (s : String) : Except String Prof.Profile :=
+  match s with
+  | "default" => .ok .default | "ebuild" => .ok .ebuild | "old-ebuild" => .ok .oldEbuild
+  | _ => .error s!"bad profile {s}"
+
+def ftagName (t : FTag) : Json := Json.str (String.ofList (t.name.map Char.ofNat))
+
+/-- profile_fn: {profile, fn, ...} -/
+def opProfileFn (req : Json) : Except String Json := do
+  let p ← getProfile (← (← req.getObjVal? "profile").getStr?)
+  let fn ← (← req.getObjVal? "fn").getStr?
+  match fn with
+  | "want_manifest" =>
+    let items ← (← req.getObjVal? "items").getArr?
+    let rs ← items.toList.mapM fun it => do
+      let a ← it.getArr?
+      pure (Json.bool (Prof.wantManifest p (← getStr a[0]!) (← getStrs a[1]!) (← getStrs a[2]!)))
+    pure (Json.mkObj [("model", Json.arr rs.toArray)])
+  | "entry_type" =>
+    let ps ← getStrs (← req.getObjVal? "items")
+    pure (Json.mkObj [("model", Json.arr (ps.toArray.map fun q => ftagName (Prof.entryType p q)))])
+  | "ignore_paths" =>
+    let ps ← getStrs (← req.getObjVal? "items")
+    pure (Json.mkObj [("model", Json.arr (ps.toArray.map fun q => Json.arr ((Prof.ignorePaths p q).toArray.map jStr)))])
+  | "want_compressed" =>
+    let items ← (← req.getObjVal? "items").getArr?
+    let rs ← items.toList.mapM fun it => do
+      let a ← it.getArr?
+      pure (Json.bool (Prof.wantCompressed p (← getStr a[0]!) (← (a[1]!).getBool?) (← (a[2]!).getNat?) (← (a[3]!).getNat?)))
+    pure (Json.mkObj [("model", Json.arr rs.toArray)])
+  | "loader_options" =>
+    let o := Prof.loaderOptions p ⟨none, none, none, none⟩
+    pure (Json.mkObj [("model", Json.arr #[
+      match o.hashes with | some h => Json.arr (h.toArray.map jStr) | none => Json.null,
+      match o.sort with | some b => Json.bool b | none => Json.null,
+      match o.watermark with | some n => jNat n | none => Json.null,
+      match o.format with | some f => jStr f | none => Json.null])])
+  | _ => .error s!"bad fn {fn}"
+
 def dispatch (req : Json) : Except String Json := do
   let op ← (← req.getObjVal? "op").getStr?
   match op with
@@ -310,6 +350,7 @@ def dispatch (req : Json) : Except String Json := do
   | "verify_dir" => opVerifyDir req
   | "lookup" => opLookup req
   | "find_top" => opFindTop req
+  | "profile_fn" => opProfileFn req
   | _ => .error s!"unknown op {op}"
 
 end Drv
